@@ -558,6 +558,36 @@ def r14_previous_value_is_a_snapshot(idx, r):
               msg=f"`{norm(st[0].stmt)}` keeps the caller's own object: for an array updated in place the 'previous' and the 'current' value are one object, eps is always 0 and the coupled iteration stops after one pass")
 
 
+def r15_cumulative_days_evaluated(idx, r):
+    """`cumulative days` of a detailed cycle are turned into step lengths by getStepsFromValues, which is EVALUATED (MiniEval) on six value
+    lists (ints, floats, numeric strings, a start value): the result is the list of successive differences and - because the list it is given
+    IS the one stored in the settings, and cycle histories are resolved many times per run - the argument is left as it was."""
+    from ..minieval import MiniEval, Raised
+    f = idx.func("armi.utils.mathematics.getStepsFromValues")
+    ps = f.params()
+    cases = [([10.0, 30.0, 60.0, 100.0], 0.0), ([5, 5, 9], 0.0), ([1.5], 0.0), ([], 0.0), (["2", "4.5"], 0.0), ([7.0, 10.0], 2.0)]
+    bad = []
+    for vals, prev in cases:
+        arg = list(vals)
+        try:
+            got, _ = MiniEval().run(f.node, {ps[0]: arg, ps[1]: prev})
+        except Raised as e:
+            got = f"raises {e}"
+        want, p_ = [], prev
+        for v in vals:
+            want.append(float(v) - p_)
+            p_ = float(v)
+        if got != want or arg != list(vals):
+            bad.append((vals, got, "argument left as " + repr(arg) if arg != list(vals) else ""))
+    r.require(not bad, "getStepsFromValues:differences-of-an-untouched-argument", f,
+              msg=f"(values, result, side effect) = {bad[:2]}: the step lengths are not the successive differences, or the caller's list (the `cumulative days` held by the settings) is overwritten and the next resolution of the cycle history differences the differences")
+
+
+def r16_pairing(idx, r):
+    from ..pairing import pairing_rule
+    pairing_rule(idx, r, ["armi.operators", "armi.interfaces", "armi.utils"], 150)
+
+
 def run(idx, chk):
     chk.explanation = (
         "C15: the operator's main, cycle and node loops, _interactAll, the six interactAllX entry points, getActiveInterfaces, the tight "
@@ -590,3 +620,7 @@ def run(idx, chk):
                  necessary="interfaces are called in stack order; step lengths sum to availability x cycle length")
     chk.run_rule("R15.14", "the coupler stores a copy of the previous iteration's value", lambda r: r14_previous_value_is_a_snapshot(idx, r), floor=1,
                  necessary="the coupled iteration at a node runs until the couplers have really converged or the cap is reached")
+    chk.run_rule("R15.15", "cumulative days -> step lengths: successive differences, argument untouched (evaluated on six lists)", lambda r: r15_cumulative_days_evaluated(idx, r), floor=1,
+                 necessary="step lengths of a cycle sum to availability x cycle length every time the history is resolved")
+    chk.run_rule("R15.16", "arguments stand at the parameter they are named after; sibling calls forward the same pass-through parameters", lambda r: r16_pairing(idx, r), floor=1,
+                 necessary="(cycle, node) reach every hook in that order; exclusions are forwarded")
